@@ -395,6 +395,8 @@ impl Ctx {
             cases,
             failure_persistence: None,
             max_shrink_iters: 3000,
+            // Shrinking a slow failing case must not hold up the run (the verdict does not depend on it).
+            max_shrink_time: 90_000,
             max_global_rejects: 1,
             ..Config::default()
         };
